@@ -61,12 +61,24 @@ static void optCase(Rng &rng, CaseResult &r, unsigned mask, bool reorderOnly = f
   }
   Features f = features(c0);
   int nOps = rng.chance(0.1) ? (int)rng.range(9, 24) : (int)rng.range(1, 8);
-  struct Op { int kind, a, b; };
+  struct Op { int kind, a, b; uint64_t pick; };
   std::vector<Op> ops;
   std::ostringstream od;
+  static const char *fineName[9] = {"swapsOneRow", "insertsOneRow", "swapsTwoRows", "insertsTwoRows", "swapsTwoRowsAmplify", "shiftsOnRows", "shiftsOnCells", "reorderingOnRows", "reorderingOnCells"};
   for (int k = 0; k < nOps; ++k) {
     Op op;
+    op.pick = rng.next();
     op.kind = (int)rng.range(0, 3);
+    if (rng.chance(reorderOnly ? 0.5 : 0.35)) {
+      // the finer-grained passes, on rows / cells chosen when the pass runs (from the state of the placement at that time)
+      op.kind = 4 + (int)rng.range(0, 8);
+      if (reorderHeavy && rng.chance(reorderOnly ? 0.9 : 0.5)) op.kind = 4 + (int)rng.range(7, 8);
+      op.a = (int)rng.range(0, 10);
+      op.b = (int)rng.range(2, 7);
+      ops.push_back(op);
+      od << fineName[op.kind - 4] << "(" << op.a << "," << op.b << ",#" << (op.pick % 1000) << ") ";
+      continue;
+    }
     if (reorderHeavy && rng.chance(reorderOnly ? 0.85 : 0.5)) op.kind = 3;
     if (op.kind == 0 || op.kind == 1) { op.a = (int)rng.range(0, 4); op.b = (int)rng.range(0, 10); }
     else if (op.kind == 2) { op.a = (int)rng.range(1, 6); op.b = (int)rng.range(2, 40); }
@@ -106,8 +118,57 @@ static void optCase(Rng &rng, CaseResult &r, unsigned mask, bool reorderOnly = f
       if (op.kind == 0) pl.runSwaps(op.a, op.b);
       else if (op.kind == 1) pl.runInserts(op.a, op.b);
       else if (op.kind == 2) pl.runShifts(op.a, op.b);
-      else pl.runReordering(op.a, op.b);
-      kinds += "SIHR"[op.kind];
+      else if (op.kind == 3) pl.runReordering(op.a, op.b);
+      else {
+        Rng prng(op.pick);
+        const DetailedPlacement &dp = pl.placement_;
+        int nr = dp.nbRows();
+        auto someRows = [&](int maxCount) { std::vector<int> rows; int cnt = (int)prng.range(1, maxCount); for (int j = 0; j < cnt; ++j) { int row = (int)prng.range(0, nr - 1); if (std::find(rows.begin(), rows.end(), row) == rows.end()) rows.push_back(row); } return rows; };
+        auto someCells = [&](int maxCount) {
+          std::vector<int> all = dp.rowCells(someRows(3)), cells;
+          for (int c : all) if (prng.chance(0.6) && (int)cells.size() < maxCount) cells.push_back(c);
+          if (prng.chance(0.3)) for (int j = (int)cells.size() - 1; j > 0; --j) std::swap(cells[j], cells[prng.range(0, j)]);
+          return cells;
+        };
+        if (nr > 0) {
+          int r1 = (int)prng.range(0, nr - 1), r2 = (int)prng.range(0, nr - 1);
+          switch (op.kind - 4) {
+            case 0: pl.runSwapsOneRow(r1, op.a); break;
+            case 1: pl.runInsertsOneRow(r1, op.a); break;
+            case 2: pl.runSwapsTwoRows(r1, r2, op.a); break;
+            case 3: pl.runInsertsTwoRows(r1, r2, op.a); break;
+            case 4: pl.runSwapsTwoRowsAmplify(r1, r2, op.a); break;
+            case 5: pl.runShiftsOnRows(someRows(4), std::max(2, op.b * 3)); break;
+            case 6: pl.runShiftsOnCells(someCells(20)); break;
+            case 7: pl.runReorderingOnRows(someRows(3), op.b); break;
+            default: {
+              // half of the time: runs of neighbouring cells, two of them in the same row separated by cells that stay, plus a run
+              // in another row (several regions per row in one window, in any order)
+              std::vector<int> cells;
+              if (prng.chance(0.5)) {
+                std::vector<int> ra = dp.rowCells(r1), rb = dp.rowCells(r2);
+                std::vector<std::vector<int>> runs;
+                if (ra.size() >= 5) {
+                  int l1 = 2, gap = (int)prng.range(1, 2), l2 = 2;
+                  if ((int)ra.size() >= l1 + gap + l2) {
+                    int i = (int)prng.range(0, (long long)ra.size() - (l1 + gap + l2));
+                    runs.push_back(std::vector<int>(ra.begin() + i, ra.begin() + i + l1));
+                    runs.push_back(std::vector<int>(ra.begin() + i + l1 + gap, ra.begin() + i + l1 + gap + l2));
+                  }
+                }
+                if (r2 != r1 && rb.size() >= 2) { int l = (int)std::min<long long>(prng.range(2, 3), (long long)rb.size()); int i = (int)prng.range(0, (long long)rb.size() - l); runs.push_back(std::vector<int>(rb.begin() + i, rb.begin() + i + l)); }
+                for (int j = (int)runs.size() - 1; j > 0; --j) std::swap(runs[j], runs[prng.range(0, j)]);
+                for (auto &run : runs) cells.insert(cells.end(), run.begin(), run.end());
+                r.count("reordering_windows_with_runs");
+              } else cells = someCells(6);
+              pl.runReorderingOnCells(cells);
+              break;
+            }
+          }
+        }
+        r.count("fine_grained_passes");
+      }
+      kinds += "SIHRabcdefghi"[op.kind];
       r.count("passes");
       pl.check();
       Circuit e = c;
